@@ -10,8 +10,8 @@
 //	IXFR AXFR-style SOA(S) nonSOA+ SOA(S) | SOA(S) SOA(S)               second record is not the start of a difference
 //	IXFR incremental SOA(S) { SOA(old) nonSOA* SOA(new) nonSOA* }+ SOA(S), old,new != S except the last new == S
 //
-// The transfer ends with the message that contains the closing SOA. Serials are compared as plain
-// integers (callers enumerate small serials only; RFC 1982 wrap-around is outside this model).
+// The transfer ends with the message that contains the closing SOA. "S <= client serial" is RFC 1982
+// serial number arithmetic (RFC 1995 §2 speaks of the "same or newer version"; versions are SOA serials).
 package xfr
 
 type Rec struct {
@@ -93,7 +93,7 @@ func Expect(q Query, envs []Env) Outcome {
 				S = r.Serial
 				st = axfr
 				if q.IXFR {
-					st, done = second, S <= q.Serial
+					st, done = second, SerialLE(S, q.Serial)
 				}
 			case st == second && !r.SOA:
 				st = axfr
@@ -125,3 +125,7 @@ func Expect(q Query, envs []Env) Outcome {
 	o.V = EndsEarly
 	return o
 }
+
+// SerialLE reports a <= b in RFC 1982 serial number arithmetic (32 bits): equal, or b is ahead of a by
+// less than 2^31. Pairs exactly 2^31 apart are undefined there; callers do not enumerate them.
+func SerialLE(a, b uint32) bool { return a == b || int32(b-a) > 0 }
